@@ -431,6 +431,7 @@ def run_rust_case(item):
     word = z3.simplify(word)
     ins[420], ins[421] = z3.ZeroExt(24, z3.Extract(7, 0, word)), z3.ZeroExt(24, z3.Extract(15, 8, word))
     ins[422] = 1 if active_high else 0
+    ins[428] = 0 if active_high else 1  # polarity the state was loaded under: the opposite one, flipped by set_columns_active_high before the operation
     thr = {}
     for idx, (name, lo) in zip((423, 424, 425, 426), (("press_threshold", 1), ("release_threshold", 1), ("repeat_delay", 0), ("repeat_interval", 1))):
         ins[idx] = z3.ZeroExt(26, B(name, 6))
